@@ -383,6 +383,13 @@ def _tuplecat(fn: ast.FunctionDef) -> Optional[List[str]]:
         return None
     lps = sym.loops_of(outs)
     rets = [o for o in outs if o.kind == "return"]
+    if not lps and len(rets) == 1 and rets[0].value is not None:
+        # the same thing as one expression: a tuple built by flattening (a, b) one level
+        b_ = sym.pm_any(["tuple((VAR_p for VAR_t in (VAR_a, VAR_b) for VAR_p in (VAR_t if isinstance(VAR_t, tuple) else (VAR_t,))))",
+                         "tuple((VAR_p for VAR_t in (VAR_a, VAR_b) for VAR_p in ((VAR_t,) if not isinstance(VAR_t, tuple) else VAR_t)))",
+                         "(*(VAR_a if isinstance(VAR_a, tuple) else (VAR_a,)), *(VAR_b if isinstance(VAR_b, tuple) else (VAR_b,)))",
+                         "(VAR_a if isinstance(VAR_a, tuple) else (VAR_a,)) + (VAR_b if isinstance(VAR_b, tuple) else (VAR_b,))"], rets[0].value)
+        return [b_["VAR_a"], b_["VAR_b"]] if b_ is not None else None
     if len(lps) != 1 or len(rets) != 1 or rets[0].loops:
         return None
     lp = lps[0]
